@@ -523,29 +523,37 @@ fn encode_cmd(l: &mut Local, rng: &mut Rng, dir: &str, idx: u64) {
 }
 
 fn ber_cmd(l: &mut Local, rng: &mut Rng, dir: &str, idx: u64) {
-    let (r, n) = *rng.pick(&[(6usize, 12usize), (12, 24), (5, 15)]);
-    let m = ra_code(rng, r, n);
+    // slow frames (one case in 24): DVB-S2 short 1/4 far below its threshold with 300 iterations, so that a single
+    // frame takes longer than the front end's reporting interval (500 ms) and reports arrive one by one
+    let slow = idx % 24 == 17 && !cfg!(miri);
+    let (r, n) = if slow { (12_960usize, 16_200usize) } else { *rng.pick(&[(6usize, 12usize), (12, 24), (5, 15)]) };
+    let m = if slow {
+        let h = ldpc_toolbox::codes::dvbs2::Code::R1_4short.h();
+        Mat::new(h.num_rows(), h.num_cols(), crate::genm::from_sparse(&h), "dvbs2-short-1/4")
+    } else {
+        ra_code(rng, r, n)
+    };
     let k = n - r;
     let apath = format!("{}/ber-{}.alist", dir, idx);
     let opath = format!("{}/ber-{}.txt", dir, idx);
     let lpath = format!("{}/ber-{}-ldpc.txt", dir, idx);
     write_file(&apath, m.to_sparse().alist().as_bytes());
-    let npoints = rng.range(1, 4);
-    let min = *rng.pick(&[-2.0f64, -1.0, 0.0, 1.0]);
+    let npoints = if slow { 2 } else { rng.range(1, 4) };
+    let min = if slow { -6.0 } else { *rng.pick(&[-2.0f64, -1.0, 0.0, 1.0]) };
     let step = *rng.pick(&[0.5f64, 1.0, 0.25]);
     let max = min + step * (npoints as f64 - 1.0) + step * 0.4;
-    let fe = rng.range(3, 25);
-    let bch = if rng.chance(0.3) { rng.range(1, 2) } else { 0 };
-    let dec = *rng.pick(&["Phif64", "Minstarapproxi8", "HLAminstarf32", "Tanhf32"]);
+    let fe = if slow { 1 } else { rng.range(3, 25) };
+    let bch = if !slow && rng.chance(0.3) { rng.range(1, 2) } else { 0 };
+    let dec = if slow { "Phif64" } else { *rng.pick(&["Phif64", "Minstarapproxi8", "HLAminstarf32", "Tanhf32"]) };
     let (mins, maxs, steps, fes, bchs) = (format!("--min-ebn0={}", min), format!("--max-ebn0={}", max), format!("--step-ebn0={}", step), fe.to_string(), bch.to_string());
-    let mut args = vec!["ber", mins.as_str(), maxs.as_str(), steps.as_str(), "--frame-errors", fes.as_str(), "--max-iter", "5", "--decoder", dec, "--output-file", opath.as_str()];
+    let mut args = vec!["ber", mins.as_str(), maxs.as_str(), steps.as_str(), "--frame-errors", fes.as_str(), "--max-iter", if slow { "300" } else { "5" }, "--decoder", dec, "--output-file", opath.as_str()];
     // optional valid processing chain: tail puncturing (pattern length dividing n), interleaver dividing the frame, 8PSK
     let plen = (3..=6).find(|x| n % x == 0);
-    let punct = if rng.chance(0.4) { plen.map(|x| { let mut v = vec!["1"; x]; v[x - 1] = "0"; v.join(",") }) } else { None };
+    let punct = if !slow && rng.chance(0.4) { plen.map(|x| { let mut v = vec!["1"; x]; v[x - 1] = "0"; v.join(",") }) } else { None };
     let nframe = match (&punct, plen) { (Some(_), Some(x)) => n / x * (x - 1), _ => n };
-    let ilv = if rng.chance(0.4) { (2..=4).find(|c| nframe % c == 0).map(|c| if rng.coin() { c.to_string() } else { format!("-{}", c) }) } else { None };
+    let ilv = if !slow && rng.chance(0.4) { (2..=4).find(|c| nframe % c == 0).map(|c| if rng.coin() { c.to_string() } else { format!("-{}", c) }) } else { None };
     let ilv_arg = ilv.as_ref().map(|c| format!("--interleaving={}", c));
-    let psk8 = nframe % 3 == 0 && rng.chance(0.4);
+    let psk8 = !slow && nframe % 3 == 0 && rng.chance(0.4);
     if let Some(p) = &punct {
         args.push("--puncturing");
         args.push(p);
@@ -566,7 +574,10 @@ fn ber_cmd(l: &mut Local, rng: &mut Rng, dir: &str, idx: u64) {
     }
     args.push(&apath);
     let _ = std::fs::remove_file(&opath);
-    if let Some((code, _out, err)) = cli(l, &args, 120) {
+    if slow {
+        l.count("ber_runs_with_slow_frames");
+    }
+    if let Some((code, _out, err)) = cli(l, &args, if slow { 600 } else { 120 }) {
         let text = std::fs::read_to_string(&opath).unwrap_or_default();
         let det = |what: String| J::obj().set("args", format!("{:?}", args)).set("exit", code).set("stderr", err.chars().take(200).collect::<String>()).set("what", what).set("output_file", text.chars().take(1500).collect::<String>());
         if code != 0 {
@@ -633,7 +644,7 @@ fn ber_cmd(l: &mut Local, rng: &mut Rng, dir: &str, idx: u64) {
             }
         }
     }
-    if idx % 3 == 0 {
+    if idx % 3 == 0 && !slow {
         for bad in ["1,2", "", "1,1,"] {
             let parg = format!("--puncturing={}", bad);
             expect_failure(l, "an invalid puncturing pattern given to ber", &["ber", "--min-ebn0=0", "--max-ebn0=0", "--step-ebn0=1", "--frame-errors", "1", &parg, &apath]);
@@ -656,7 +667,7 @@ fn ber_cmd(l: &mut Local, rng: &mut Rng, dir: &str, idx: u64) {
 }
 
 pub fn run(run: &mut Run) {
-    run.rule = "the real binary (built from the working tree) in child processes: dvbs2 / ccsds / ccsds-c2 EXHAUSTIVE over their valid argument spaces (stdout must equal alist() of the library matrix, --girth lines; 6 for DVB-S2 1/2 and CCSDS 1/2 k=1024; all girths in thorough) plus invalid rates/sizes (exit != 0, message, no panic); sampled peg / mackay-neal (all flags, --search with sequential re-run of the seed range) / systematic (incl. inputs whose tail is already invertible, rank-deficient and unreadable inputs) / encode (n in {6..70}, puncturing patterns of length 2..9 dividing n incl. 6-of-7, 0..4 complete words plus a trailing partial word, invalid and non-dividing patterns) / ber (1..4 Eb/N0 points, 3..25 frame errors, with/without outer-code threshold: one result line per point, frames >= errors, frame errors = requested, BER and FER = stated ratios to printed precision; invalid pattern, non-fitting interleaver, unknown decoder => exit != 0 without hang); non-trivial = every invocation judged (distinct by argument vector / file contents)".into();
+    run.rule = "the real binary (built from the working tree) in child processes: dvbs2 / ccsds / ccsds-c2 EXHAUSTIVE over their valid argument spaces (stdout must equal alist() of the library matrix, --girth lines; 6 for DVB-S2 1/2 and CCSDS 1/2 k=1024; all girths in thorough) plus invalid rates/sizes (exit != 0, message, no panic); sampled peg / mackay-neal (all flags, --search with sequential re-run of the seed range) / systematic (incl. inputs whose tail is already invertible, rank-deficient and unreadable inputs) / encode (n in {6..70}, puncturing patterns of length 2..9 dividing n incl. 6-of-7, 0..4 complete words plus a trailing partial word, invalid and non-dividing patterns) / ber (1..4 Eb/N0 points, 3..25 frame errors, with/without outer-code threshold; one run in 24 on DVB-S2 short 1/4 at -6 dB with 300 iterations, where one frame takes longer than the reporting interval: one result line per point, frames >= errors, frame errors = requested, BER and FER = stated ratios to printed precision; invalid pattern, non-fitting interleaver, unknown decoder => exit != 0 without hang); non-trivial = every invocation judged (distinct by argument vector / file contents)".into();
     run.exhaustive = None;
     if !std::path::Path::new(BIN).exists() {
         run.merged.inconclusive(format!("binary {} not built", BIN));
